@@ -64,9 +64,22 @@ class C18(Prop):
         base = tempfile.mkdtemp(prefix="t-", dir=self.tmp)
         root = os.path.join(base, "tree")
         try:
-            t = build_tree(r, root, excluded_names=False)
-            ign = {}
-            for d in t["dirs"]:
+            ex = case.get("explicit")
+            if ex:
+                # a tree written out in full (witnesses of repaired defects: independent of later changes to the generator)
+                t = {"dirs": sorted({os.path.dirname(f) for f in ex["files"]} | set(ex["ignore"]) | {""}), "files": {f: 3 for f in ex["files"]}, "links": {}}
+                for d in t["dirs"]:
+                    os.makedirs(os.path.join(root, d), exist_ok=True)
+                for f in ex["files"]:
+                    with open(os.path.join(root, f), "w") as fh:
+                        fh.write("xxx")
+                for d, data in ex["ignore"].items():
+                    with open(os.path.join(root, d, ".gitignore"), "w", newline="") as fh:
+                        fh.write(data)
+            else:
+                t = build_tree(r, root, excluded_names=False)
+            ign = {d: data.split("\n") for d, data in ex["ignore"].items()} if ex else {}
+            for d in ([] if ex else t["dirs"]):
                 if r.random() < 0.6:
                     lines = r.sample(PATTERNS, r.randint(1, 4))
                     if r.random() < 0.3:
